@@ -3,6 +3,7 @@
 # Confirms a seeded change in a scratch copy of /repo (suite passes with it; demo passes without and fails with it),
 # then runs the named quick checks against the changed copy.  Nothing is applied to /repo.
 set -u
+ROOT=$(cd "$(dirname "$(readlink -f "$0")")/.." && pwd)
 export GOFLAGS=-mod=mod GOPROXY=off GOSUMDB=off GOTOOLCHAIN=local
 SRC=$(readlink -f "$1"); shift
 D=$(mktemp -d /var/tmp/seedeval.XXXXXX)
@@ -27,6 +28,6 @@ SUITE=$(cd "$D" && go test -vet=off -count=1 ./... 2>&1 | grep -v "^ok\|no test 
 echo "demo-without-change=$R0 (want 0)  demo-with-change=$R1 (want !=0)  suite-with-change=$([ -z "$SUITE" ] && echo pass || echo "FAIL: $SUITE")"
 rm -f /tmp/zz.$$ /tmp/demo.$$.log
 for P in "$@"; do
-  OUT=$(cd /verif && VERIF_REPO="$D" ./check "$P" 2>&1); RC=$?
+  OUT=$(cd "$ROOT" && VERIF_REPO="$D" ./check "$P" 2>&1); RC=$?
   echo "  $P rc=$RC $(echo "$OUT" | grep -m1 -A1 'VIOLATION\|OK property\|INCONCLUSIVE' | tr '\n' ' ' | cut -c1-300)"
 done
